@@ -831,7 +831,7 @@ func init() {
 		Quick: 600000, Thorough: 18000000}, genTriple, checkSign)
 	ev.Define("triage_band", ev.Options{
 		Rule:  "a, b with all coordinates > 0.25 (largest determinant rounding error) and c0 on their great circle; the Check enumerates all 343 points of the ±3-ulp lattice around c0 and, for every lattice point whose float determinant is below 2e-15, requires a non-zero triageSign to equal the exact determinant sign and RobustSign to equal it too. Directed at error constants that are too small by a small factor. Non-trivial: at least one lattice point near the threshold.",
-		Quick: 60000, Thorough: 2000000}, genNbhd, checkTriageBand)
+		Quick: 60000, Thorough: 500000}, genNbhd, checkTriageBand)
 	ev.Define("triage_identical_bulk", ev.Options{
 		Rule:  "each case expands one drawn 64-bit seed (splitmix, a pure function of the draw) into 2000 uniformly distributed unit point pairs (a,b); for (a,b,a), (a,a,b), (b,a,a) the exact determinant is 0, so triageSign and RobustSign must be 0; the float determinant is its own rounding error and the worst error/constant ratio is reported. All cases non-trivial.",
 		Quick: 40000, Thorough: 1000000}, genBulkPairs, checkBulkIdentical)
